@@ -24,6 +24,7 @@ import _thread
 from dsim import common, faults, sched, boot
 
 FEATSETS = [(), ('EQUALITY_OPERATORS',), ('BUILTIN_FUNCTIONS',)]   # LISTS rewrites appends on globals (documented limit)
+LISTS_FEATSET = ('LISTS', 'EQUALITY_OPERATORS')                    # ... so only targets marked lists_ok get it (feats index 9)
 STATUSES = ('UNSPECIFIED', 'ENABLED', 'DISABLED')
 
 USER_SRC = '''\
@@ -413,6 +414,80 @@ class PassThrough(Exception):
   ag_pass_through = True
 
 
+class BaseGreeter(object):
+
+  def __init__(self):
+    self.w = 2
+
+  def greet(self, a, b=2):
+    LOG.append(('BaseGreeter.greet', a, b))
+    return ('base', self.w + a + b)
+
+
+class DerivedGreeter(BaseGreeter):
+
+  def greet(self, a, b=2):
+    # zero-argument super() from inside converted control-flow bodies
+    LOG.append(('DerivedGreeter.greet', a, b))
+    if a > 0:
+      r = super().greet(a, b)
+    else:
+      r = ('neg', a)
+    out = []
+    for peer in [DerivedGreeter(), DerivedGreeter()]:
+      out.append(super().greet(b))
+    return ('derived', r, len(out))
+
+
+async def async_fn(a, b=2):
+  LOG.append(('async_fn', a, b))
+  if a > 0:
+    return a + b
+  return a - b
+
+
+class AsyncHolder(object):
+
+  async def ameth(self, a, b=2):
+    LOG.append(('AsyncHolder.ameth', a, b))
+    return a + b
+
+
+async def async_gen(a, b=2):
+  LOG.append(('async_gen', a, b))
+  yield a
+  yield b
+
+
+def _log(*entry):
+  LOG.append(entry)
+
+
+import malt as _malt
+_log = _malt.experimental.do_not_convert(_log)     # (it appends to a global list: not convertible under LISTS)
+
+
+def lists_user(a, b=2):
+  # safe under Feature.LISTS: only local lists are appended to (logging goes through a call)
+  _log('lists_user', a, b)
+  acc = []
+  acc.append(a)
+  if a > 0:
+    acc.append(b)
+  return ('lists_user', len(acc), acc[0])
+
+
+def multi_assign(a, b=2):
+  # under Feature.LISTS the slices converter rejects the chained assignment below
+  _log('multi_assign', a, b)
+  x = y = 0
+  acc = []
+  if a > 0:
+    x = a
+    acc.append(x)
+  return ('multi_assign', x + y, len(acc))
+
+
 def kwonly_required(a, b=2, *, k):
   LOG.append(('kwonly_required', a, b, k))
   if a > 0:
@@ -512,10 +587,11 @@ Z = {}
 
 class Target(object):
   __slots__ = ('name', 'label', 'a', 'b', 'argsets', 'fnname', 'inner', 'remember_exempt',
-               'module_rule', 'lazy', 'overload')
+               'module_rule', 'lazy', 'overload', 'lists_ok', 'fails_under')
 
   def __init__(self, name, label, a, b, argsets=None, fnname=None, inner=None,
-               remember_exempt=False, module_rule=None, lazy=False, overload=None):
+               remember_exempt=False, module_rule=None, lazy=False, overload=None, lists_ok=False,
+               fails_under=None):
     self.name = name
     self.label = label
     self.a = a              # object in the real pool (goes through converted_call)
@@ -527,6 +603,8 @@ class Target(object):
     self.module_rule = module_rule
     self.lazy = lazy
     self.overload = overload
+    self.lists_ok = lists_ok        # may be requested with Feature.LISTS (does not append to globals)
+    self.fails_under = fails_under  # a feature under which the pipeline rejects this target by itself
 
 
 ARGSETS = {
@@ -643,6 +721,12 @@ def build_pool(lane, which):
   add('raiser', 'function', U.raiser, fnname='raiser')
   add('raiser_passthrough', 'function', U.raiser_passthrough, fnname='raiser_passthrough')
   add('kwonly_required', 'function', U.kwonly_required, argsets='kwonly', fnname='kwonly_required')
+  add('super_in_branch', 'function', U.DerivedGreeter().greet, fnname='greet')
+  add('async_fn', 'coroutine', U.async_fn)
+  add('async_method', 'coroutine', U.AsyncHolder().ameth)
+  add('async_gen', 'coroutine', U.async_gen)
+  add('lists_user', 'function', U.lists_user, fnname='lists_user', lists_ok=True)
+  add('multi_assign', 'function', U.multi_assign, fnname='multi_assign', lists_ok=True, fails_under='LISTS')
   add('twice_caller', 'function', U.twice_caller, fnname='twice_caller')
   add('nested2', 'function', U.nested2, fnname='nested')
   add('star_caller', 'function', U.star_caller, fnname='star_caller')
@@ -786,7 +870,7 @@ def init_zygote(lane):
   Z['targets'] = targets
   Z['exempt_ids'] = set(_rem_id(t.a) for t in targets.values() if t.remember_exempt)
   Z['A'], Z['B'] = A, B
-  feats = tuple(getattr(malt.experimental.Feature, f) for f in FEATSETS[-1])
+  feats = tuple(getattr(malt.experimental.Feature, f) for f in ('BUILTIN_FUNCTIONS', 'LISTS', 'EQUALITY_OPERATORS'))
   with common.World():
     pts = faults.discover(
         lambda: malt.to_graph(A['U'].fn, recursive=True, experimental_optional_features=feats),
@@ -852,7 +936,7 @@ def model_converts(t, opts, status, remembered):
   if label in ('artifact', 'builtin', 'builtin_overloaded', 'native', 'constructor', 'lru_cache', 'wrapt',
                'stdlib', 'exec'):
     return False
-  if label in ('callable_static', 'callable_class'):
+  if label in ('callable_static', 'callable_class', 'coroutine'):
     return None
   if label == 'allowlisted_module':
     if not opts['ur']:
@@ -909,7 +993,7 @@ RELATED = {
     'cached': ['fn'], 'gen': ['fn'], 'len': ['len_tape'],
 }
 
-CONVERTIBLE = ['caller', 'caller', 'twice_caller', 'twice_caller', 'kwonly_required', 'symbolic_eq_callable', 'strict_eq_callable', 'pseudo_file_fn', 'badrepr_method', 'badrepr_callable', 'local_gen_caller', 'decorated_local_caller', 'metaclass_call2', 'shadowed_call', 'fn', 'star_caller', 'nested2', 'raiser_passthrough', 'raiser', 'falsy_bag_method', 'falsy_obj_method', 'nt_method', 'metaclass_call', 'slotted_callable', 'manual_bound', 'fn', 'lam', 'nested', 'bound', 'unbound', 'cmeth', 'cmeth_inst', 'smeth', 'callable',
+CONVERTIBLE = ['caller', 'caller', 'lists_user', 'multi_assign', 'multi_assign', 'super_in_branch', 'twice_caller', 'twice_caller', 'kwonly_required', 'symbolic_eq_callable', 'strict_eq_callable', 'pseudo_file_fn', 'badrepr_method', 'badrepr_callable', 'local_gen_caller', 'decorated_local_caller', 'metaclass_call2', 'shadowed_call', 'fn', 'star_caller', 'nested2', 'raiser_passthrough', 'raiser', 'falsy_bag_method', 'falsy_obj_method', 'nt_method', 'metaclass_call', 'slotted_callable', 'manual_bound', 'fn', 'lam', 'nested', 'bound', 'unbound', 'cmeth', 'cmeth_inst', 'smeth', 'callable',
                'decorated', 'caller', 'raiser', 'partial1', 'partial_nested', 'partial_method',
                'partial_chain', 'partial_chain3', 'partial_subclass',
                'mod:malty', 'mod:numpy_like', 'mod:reporting', 'mod:copyx', 'np_sub_overridden',
@@ -972,6 +1056,9 @@ def make_plan(seed, index, tier, sub):
           op['fault']['when'] = 'entry' if (j // len(pts)) % 2 == 0 else 'exit'
           op['fault']['nth'] = 1
       ops.append(op)
+  for op in ops:
+    if Z['targets'][op['target']].lists_ok and rng.random() < 0.5:
+      op['opts']['feats'] = 9          # Feature.LISTS, only for targets that do not append to globals
   return {'prop': 'C13', 'ops': ops, 'strategy': {'name': 'serial'}, 'faults': []}
 
 
@@ -996,6 +1083,11 @@ def _norm(v, depth=0):
     return 'Decimal:' + str(v)
   if isinstance(v, range):
     return ['range'] + list(v)[:20]
+  if isinstance(v, types.CoroutineType):
+    v.close()
+    return 'coroutine:' + v.__name__
+  if isinstance(v, types.AsyncGeneratorType):
+    return 'async_generator:' + v.__name__
   if isinstance(v, types.GeneratorType):
     return ['gen'] + [_norm(x, depth + 1) for x in v]
   if hasattr(v, '__dict__') and not isinstance(v, (type, types.FunctionType, types.ModuleType)):
@@ -1043,7 +1135,7 @@ class Run(object):
 
   def _opts(self, o):
     malt = self.malt
-    names = FEATSETS[o['feats'] % len(FEATSETS)]
+    names = LISTS_FEATSET if o['feats'] == 9 else FEATSETS[o['feats'] % len(FEATSETS)]
     feats = tuple(getattr(malt.experimental.Feature, n) for n in names) or None
     return self.converter.ConversionOptions(recursive=o['rec'], user_requested=o['ur'],
                                             internal_convert_user_code=o['icuc'],
@@ -1051,7 +1143,7 @@ class Run(object):
 
   @staticmethod
   def _okey(o):
-    return (o['rec'], o['ur'], o['icuc'], o['feats'] % len(FEATSETS))
+    return (o['rec'], o['ur'], o['icuc'], o['feats'] if o['feats'] == 9 else o['feats'] % len(FEATSETS))
 
   def _args(self, t, idx, which):
     aset = ARGSETS[t.argsets] if isinstance(t.argsets, str) else t.argsets
@@ -1213,9 +1305,10 @@ class Run(object):
       if len(got_log) > len(exp_log):
         self.viol('T5', '%s: strict mode invoked the target more than a direct call does' % where, 'strict-double')
       return
+    natural = (t.label in ('unsupported', 'coroutine')) or (t.fails_under == 'LISTS' and eff['feats'] == 9)
     # strict mode + a target the pipeline rejects by itself: the rejection propagates
-    if op.get('strict') and requests and not fallbacks and t.label in ('unsupported', 'generator') \
-        and got[0] == 'exc' and got[1] == 'UnsupportedLanguageElementError':
+    if op.get('strict') and requests and not fallbacks and (natural or t.label == 'generator') \
+        and got[0] == 'exc':
       self.stats['strict_raises'] += 1
       if len(got_log) > len(exp_log):
         self.viol('T5', '%s: strict mode invoked the target more than a direct call does' % where, 'strict-double')
@@ -1265,12 +1358,25 @@ class Run(object):
     elif exp_conv is False and requested:
       self.viol('T2', '%s: policy says do not convert (%s), but a conversion of %s was requested'
                 % (where, cell, t.fnname), 'converted-%s' % (t.label if t.label != 'partial' else t.inner))
+    # ---- T3 for constructs the pipeline rejects by itself --------------------------------------
+    if natural and fault is None and requested and exp_conv is True and t.fnname and \
+        not any(fid_ == _rem_id(t.a) for fid_, _, _ in fallbacks):
+      if op.get('strict'):
+        if got[0] != 'exc':
+          self.viol('T5', '%s: strict mode, the pipeline rejects this target, but the call returned %s'
+                    % (where, _short(got)), 'strict-returned-natural')
+      else:
+        self.viol('T3', '%s: the pipeline rejects this construct (a conversion was requested), but the target was '
+                  'not run through the fallback: no warning, nothing remembered' % where, 'rejected-construct-no-fallback')
+    elif natural and fault is None and requested and not op.get('strict') and not warns and not was_remembered:
+      self.viol('T3', '%s: the pipeline rejected the target but no warning was emitted' % where, 'no-warning-natural')
     # ---- T6 nothing poisoned ---------------------------------------------------------------
     # no failure was injected into this operation and the target is an ordinary
     # convertible one that was never remembered: a fallback here means an
     # earlier failure left something behind (or a running target's own
     # exception was mistaken for a conversion failure)
-    if fault is None and not op.get('strict') and exp_conv is True and t.label in ('function', 'lambda', 'callable_obj') \
+    if fault is None and not op.get('strict') and not natural and exp_conv is True \
+        and t.label in ('function', 'lambda', 'callable_obj') \
         and any(fid_ == _rem_id(t.a) for fid_, _, _ in fallbacks):
       self.viol('T6', '%s: fell back to the unconverted target although nothing failed in this operation (%s)'
                 % (where, [x[2] for x in fallbacks]), 'spurious-fallback')
@@ -1282,7 +1388,7 @@ class Run(object):
 
   def _scope_opts(self, o):
     malt = self.malt
-    names = FEATSETS[o['feats'] % len(FEATSETS)]
+    names = LISTS_FEATSET if o['feats'] == 9 else FEATSETS[o['feats'] % len(FEATSETS)]
     feats = tuple(getattr(malt.experimental.Feature, n) for n in names) or None
     return self.converter.ConversionOptions(recursive=o['rec'], user_requested=o['ur'],
                                             internal_convert_user_code=o['icuc'],
